@@ -705,10 +705,17 @@ def make_bb(names, keyed, name="kb", sig=None):
     from inference.conditional import Conditional
 
     d = {}
+    seen = {}
     for k, c in keyed:
+        sig_ = json.dumps([c[0], c[1]])
+        if sig_ in seen and zlib.crc32(sig_.encode()) % 2 == 0:
+            # a conditional listed twice may be the very same Conditional object under two keys (a base assembled from a pool)
+            d[k] = seen[sig_]
+            continue
         cond = Conditional(f_pysmt(c[0], names), f_pysmt(c[1], names), cond_text(c, names))
         cond.index = k
         d[k] = cond
+        seen[sig_] = cond
     return BeliefBase(list(names if sig is None else names[:sig]), d, name)
 
 
@@ -732,6 +739,13 @@ def impl_answers(names, keyed_base, keyed_queries, system, weakly=False, pmaxsat
         with warnings.catch_warnings():
             warnings.simplefilter("ignore")
             m = InferenceManager(bb, system, pmaxsat_solver=pmaxsat, weakly=weakly)
+            if inf_kw.pop("_own", False):
+                # a query that is one of the base's conditionals is asked with the base's OWN Conditional object (as Queries(bb) does)
+                own = {json.dumps([c[0], c[1]]): k for k, c in keyed_base}
+                for k, c in keyed_queries:
+                    bk = own.get(json.dumps([c[0], c[1]]))
+                    if bk is not None:
+                        qs.conditionals[k] = bb.conditionals[bk]
             if inf_kw.pop("_shared", False) and keyed_queries:
                 # the very same Queries object (and its Conditional objects) has already been used: by another operator on a
                 # copy of the base, and as the conditionals of a belief base that went through the consistency test
